@@ -616,6 +616,7 @@ struct Rw<'a> {
     errors: Vec<String>,
     hoist_ctr: usize,
     rename_calls: &'a BTreeMap<String, String>,
+    ctor_types: &'a BTreeSet<String>,
     float_ctx: bool,
 }
 
@@ -823,6 +824,23 @@ impl<'a> VisitMut for Rw<'a> {
     }
 
     fn visit_expr_mut(&mut self, e: &mut Expr) {
+        // T14 (eta): `.map(Ctor)` with a tuple-struct constructor used as a function value -> `.map(|__c| Ctor(__c))`
+        // (Verus does not support constructors as function values; the closure is the same function)
+        if let Expr::MethodCall(mc) = e {
+            if mc.method == "map" && mc.args.len() == 1 {
+                let is_ctor = match &mc.args[0] {
+                    Expr::Path(p) if p.qself.is_none() && p.path.segments.len() == 1 => {
+                        self.ctor_types.contains(&p.path.segments[0].ident.to_string())
+                    }
+                    _ => false,
+                };
+                if is_ctor {
+                    let ctor = mc.args[0].clone();
+                    mc.args[0] = parse_quote!(|__c| #ctor(__c));
+                    self.site("T14-eta");
+                }
+            }
+        }
         // children first
         visit_mut::visit_expr_mut(self, e);
         let mut replacement: Option<Expr> = None;
@@ -1177,6 +1195,20 @@ fn main() {
             }
         }
     }
+    // "rename_fns": {"<file>#<free fn>": "<new name>"} — two files of one unit may define free functions of the same
+    // name (math: `div_floor` for i128 and for I256); the definition and the calls *inside that file* are renamed
+    let rename_fns: BTreeMap<String, String> =
+        job["rename_fns"].as_object().map(|m| m.iter().map(|(k, v)| (k.clone(), v.as_str().unwrap().to_string())).collect()).unwrap_or_default();
+    let mut file_renames: BTreeMap<String, BTreeMap<String, String>> = BTreeMap::new();
+    for f in c.fns.iter_mut() {
+        if f.impl_type.is_none() {
+            if let Some(n) = rename_fns.get(&format!("{}#{}", f.file, f.key)) {
+                f.sig.ident = Ident::new(n, f.sig.ident.span());
+                file_renames.entry(f.file.clone()).or_default().insert(f.key.clone(), n.clone());
+                f.key = n.clone();
+            }
+        }
+    }
     // optional per-file disambiguation "file#key"
     let mut selected: Vec<FnRec> = vec![];
     let mut seen = BTreeSet::new();
@@ -1295,6 +1327,10 @@ fn main() {
     for f in &selected {
         let (envs, byval) = envs_of[&f.key].clone();
         let eff = effectful.contains(&f.key);
+        let mut rc_local = rename_calls.clone();
+        if let Some(m) = file_renames.get(&f.file) {
+            rc_local.extend(m.iter().map(|(k, v)| (k.clone(), v.clone())));
+        }
         let mut rw = Rw {
             envs: envs.clone(),
             env_by_value: byval.clone(),
@@ -1311,7 +1347,8 @@ fn main() {
             sites: BTreeMap::new(),
             errors: vec![],
             hoist_ctr: 0,
-            rename_calls: &rename_calls,
+            rename_calls: &rc_local,
+            ctor_types: &c.type_names,
             float_ctx: false,
         };
         let _ = rw.self_effectful;
